@@ -8,6 +8,7 @@ from .. import core
 from ..core import q, lst, natl
 from .. import pb
 
+NAMING = True
 ID = "C04"
 ORACLE = "Oracle.C04"
 PROPS = "Props/C04.v"
